@@ -1222,6 +1222,11 @@ def fixed_cases():
         ("index-builtin-to-json-indent", 'fn main() { let o = new { a: 1 }; let f: fn() -> str = o["to_json_indent"]; println(f()); }\n', True, "index `to_json_indent`"),
         ("index-declared", 'fn main() { let o = new { kk: 3, a: 1 }; let k: int = o["kk"]; println(k + o["a"]); }\n', False, "declared fields are indexed by string literals"),
         ("index-unknown", 'fn main() { let o = new { a: 1 }; println(o["nope"]); }\n', True, "index with an unknown field name"),
+        # a function that extracts a singleton keeps that parameter kind when it is used as a value
+        ("singleton-fn-value", "$Lamp = { level: int };\nfn bump(l: $Lamp, delta: int) -> int { l.level += delta; l.level }\nfn main() { let step = bump; println(step(5)); println(bump(1)); let again = step; println(again(2)); }\n", False,
+         "function with a singleton extraction called through a variable"),
+        ("singleton-fn-value-arity", "$Lamp = { level: int };\nfn bump(l: $Lamp, delta: int) -> int { l.level += delta; l.level }\nfn main() { let step = bump; println(step(5, 6)); }\n", True,
+         "the same with a surplus argument"),
         # the identifier of a catch block lives in the catch block only
         ("catch-ident-after", 'fn main() { try { throw("x"); } catch e { println(e.message); } println(e.message); }\n', True, "catch identifier used after the try expression"),
         ("catch-ident-after-fn", 'fn f() -> str { let r = try { "a" } catch err { err.message }; err.message }\nfn main() { println(f()); }\n', True, "catch identifier used after the try expression (function tail)"),
